@@ -2,6 +2,8 @@
 package roles
 
 import (
+	"go/constant"
+	"go/token"
 	"go/types"
 	"sort"
 
@@ -19,8 +21,12 @@ type Family struct {
 	Repo   *types.Named
 	Upload *types.Named
 	Types  map[string]bool // names of the store-package struct types in the family
-	// Mutating is true when a method of the family reaches a mutating filesystem call.
+	// Mutating is true for the family that persists to the filesystem: the one the server constructor
+	// builds for the configured store type StoreDir (fallback when that cannot be resolved: the family
+	// whose functions call mutating filesystem functions).
 	Mutating bool
+	// Kind is the configured store type the family is constructed for ("StoreDir", "StoreMem", …).
+	Kind string
 }
 
 // Roles are the resolved anchors of the rules.
@@ -182,6 +188,46 @@ func Resolve(p *core.Prog) *Roles {
 				fam.Mutating = true
 			}
 		})
+	}
+	// the server constructor's switch: which family is built for which configured store type
+	if cp := p.All[r.ConfigPath]; cp != nil {
+		constName := map[int64]string{}
+		sc := cp.Types.Scope()
+		for _, n := range sc.Names() {
+			if k, ok := sc.Lookup(n).(*types.Const); ok && IsNamed(k.Type(), r.ConfigPath, "Store") {
+				if v, ok := constant.Int64Val(k.Val()); ok {
+					constName[v] = n
+				}
+			}
+		}
+		resolved := 0
+		for _, fn := range p.Funcs("") {
+			an.Calls(fn, func(call ssa.CallInstruction) {
+				callee := call.Common().StaticCallee()
+				if callee == nil || core.FuncPkgPath(callee) != r.StorePath {
+					return
+				}
+				fam := r.FamilyOfFunc(callee)
+				if fam == nil || callee.Signature.Results().Len() != 1 || an.NamedOf(callee.Signature.Results().At(0).Type()) != r.IStore {
+					return
+				}
+				for _, g := range an.GuardingEdges(call.Block()) {
+					x, y, op, ok := an.CmpTest(an.BlockIf(g.From))
+					if !ok || op != token.EQL || g.Succ != 0 {
+						continue
+					}
+					if k, isC := an.ConstInt(y); isC && IsNamed(x.Type(), r.ConfigPath, "Store") {
+						fam.Kind = constName[k]
+						resolved++
+					}
+				}
+			})
+		}
+		if resolved >= 2 {
+			for _, f := range r.Families {
+				f.Mutating = f.Kind == "StoreDir"
+			}
+		}
 	}
 	// server, router, handlers
 	rp := p.All[r.RootPath]
